@@ -705,7 +705,41 @@ func (p *Program) applyCondPost(info *types.Info, n *Facts, cond ast.Expr, val b
 // variables or fields they mention are written or the lock protecting those fields is released.
 func (p *Program) recordPending(info *types.Info, n *Facts, st ast.Node) {
 	as, ok := st.(*ast.AssignStmt)
-	if !ok || len(as.Rhs) != 1 || len(as.Lhs) < 1 {
+	if !ok {
+		return
+	}
+	// x := obj.flag (a boolean field captured into a local, typically under the lock): testing x later decides
+	// obj.flag as long as neither was written and the lock was not released in between
+	if len(as.Lhs) == len(as.Rhs) && (as.Tok == token.DEFINE || as.Tok == token.ASSIGN) {
+		for i, l := range as.Lhs {
+			lid, isId := l.(*ast.Ident)
+			if !isId || lid.Name == "_" {
+				continue
+			}
+			rhs := ast.Unparen(as.Rhs[i])
+			neg := false
+			if u, isU := rhs.(*ast.UnaryExpr); isU && u.Op == token.NOT {
+				rhs, neg = ast.Unparen(u.X), true
+			}
+			sel, isSel := rhs.(*ast.SelectorExpr)
+			if !isSel || !isFieldPath(sel) || mentions(exprStr(sel), lid.Name) {
+				continue
+			}
+			if t := info.TypeOf(sel); t == nil {
+				continue
+			} else if b, isB := t.Underlying().(*types.Basic); !isB || b.Kind() != types.Bool {
+				continue
+			}
+			if n.pend == nil {
+				n.pend = map[string]pendAtom{}
+			}
+			for _, when := range []bool{true, false} {
+				key := lid.Name + " ⇒" + map[bool]string{true: "T", false: "F"}[when] + ": " + normStr(info, sel)
+				n.pend[key] = pendAtom{v: lid.Name, when: when, ra: relAtom{token.ILLEGAL, sel, nil}, val: when != neg}
+			}
+		}
+	}
+	if len(as.Rhs) != 1 || len(as.Lhs) < 1 {
 		return
 	}
 	c, ok := ast.Unparen(as.Rhs[0]).(*ast.CallExpr)
